@@ -1,6 +1,7 @@
 (* C17 — property theorems (statements only; proofs live in Proofs*.v). *)
 From Coq Require Import ZArith List Bool Permutation Reals QArith.
 From ADV Require Import C17.Model C17.Spec C17.Carriers C17.ProofsMerge C17.ProofsChunks C17.ProofsErr C17.ProofsSites.
+From ADV Require Import C17.ModelCfg C17.ProofsCfg C17.SitesGenDefs C17.Sites_gen C17.ProofsSitesGen.
 Import ListNotations.
 
 (* (1) nothing lost, nothing counted twice: for EVERY pool size k >= 1 (also k larger than the
@@ -119,8 +120,30 @@ Theorem addjob_result_ignored_refuted :
     step_addjob_result_ignored Z Z.add 0%Z true 2 [mkThr false 0%Z; mkThr false 0%Z] tr2 = SErr.
 Proof. exact addjob_ignored_pool_dependent. Qed.
 
-(* (2) write-set disjointness, decided per call site on the transcribed access lists *)
+(* (2) write-set disjointness, decided per job closure on the access lists DERIVED from the Go
+   source by /verif/go2coq_c17 (Sites_gen.v, regenerated on every run): every assignment and every
+   method call on a non-job-local object inside a closure handed to AddJob / AddRangeJob / RangeJob
+   (callees of the same package followed) is job local, or indexed by the job's index, or by
+   GetThreadId() of the closure's OWN pool handle, or a read-only call on shared data; no thread id
+   of another handle indexes an accumulator and no foreign pool handle is passed to a nested estimate *)
 Theorem sites_write_only_owned_cells :
+  forall s, In s gen_sites -> gsite_ok s = true.
+Proof. exact gen_sites_ok. Qed.
+
+(* every modelled call site has its closures in the generated list and every closure found in the
+   library belongs to a modelled call site *)
+Theorem generated_sites_cover_the_model : coverage_ok gen_sites = true.
+Proof. exact gen_coverage. Qed.
+
+(* hence two different threads running two different jobs never assign the same instance *)
+Theorem generated_writes_never_conflict :
+  forall a, gacc_ok a = true -> g_write a = true -> g_local a = false ->
+  forall t1 t2 j1 j2 : nat, t1 <> t2 -> j1 <> j2 ->
+    map (inst_idx t1 j1) (g_idx a) <> map (inst_idx t2 j2) (g_idx a).
+Proof. exact accepted_write_separates. Qed.
+
+(* the same statement on the access lists transcribed by hand in round 1 (Sites.v) *)
+Theorem transcribed_sites_write_only_owned_cells :
   forall s, In s all_sites -> site_ok s = true.
 Proof. exact all_sites_ok. Qed.
 
@@ -138,6 +161,51 @@ Theorem saga_partition_covers :
   exists l, saga_partition threads n = Some l /\ concat (map zr l) = zrange 0 n /\
             Z.of_nat (length l) = Z.min threads n.
 Proof. exact saga_partition_spec. Qed.
+
+(* (1') the merge theorem PER ACCUMULATOR and PER CONFIGURATION of the optional accumulators of
+   BaumWelchStep (pi, tr iff OptimizeTransitions, gamma iff OptimizeEmissions, likelihood) and
+   EmStep (logWeights iff OptimizeWeights, gamma iff OptimizeEmissions, likelihood): in every
+   configuration that does not dereference a nil accumulator, for every pool size, stale
+   content and schedule, the step returns exactly the accumulators the configuration allocates,
+   each the monoid sum of its contributions - the likelihood whether or not gamma is nil. *)
+Theorem optional_accumulators_merge_per_configuration :
+  forall (A1 A2 A3 A4 : Type) op1 e1 op2 e2 op3 e3 op4 e4,
+    commutative_monoid A1 op1 e1 -> commutative_monoid A2 op2 e2 ->
+    commutative_monoid A3 op3 e3 -> commutative_monoid A4 op4 e4 ->
+  forall (J : Type) (cf : J -> contrib A1 A2 A3 A4) (c : ocfg) (k : nat) (stale : list (othr A1 A2 A3 A4))
+         (jobs : list J) (sch : list (nat * J)),
+    cfg_safe c = true -> (1 <= k)%nat -> length stale = k -> schedule_of J k jobs sch ->
+    ostep A1 A2 A3 A4 op1 e1 op2 e2 op3 e3 op4 e4 c stale (oevents A1 A2 A3 A4 J cf sch) =
+      Some (mkR (bigop A1 op1 e1 (map (fun j => c_1 (cf j)) jobs))
+                (if has_F c then Some (bigop A2 op2 e2 (map (fun j => c_2 (cf j)) jobs)) else None)
+                (if has_I c then Some (bigop A3 op3 e3 (map (fun j => c_3 (cf j)) jobs)) else None)
+                (bigop A4 op4 e4 (map (fun j => c_4 (cf j)) jobs))).
+Proof. exact ostep_schedule. Qed.
+
+(* the configurations of the two steps: all four of EM, the two of Baum-Welch that allocate tr *)
+Theorem em_and_baum_welch_configurations_are_covered :
+  (forall oe ow, cfg_safe (em_cfg oe ow) = true) /\ (forall oe, cfg_safe (bw_cfg oe true) = true).
+Proof. exact (conj em_cfg_safe bw_cfg_safe). Qed.
+
+(* KNOWN FINDING F-BW-NOTRANS-NILDEREF: with BaumWelchOptimizeTransitions{false} tmp[.].tr is a nil
+   *DenseFloat64Matrix and the reset block of baumWelchThread calls tr.Map on it: the first job
+   of every step panics, for every pool size (on a worker goroutine this kills the process) *)
+Theorem baum_welch_without_transitions_panics_refuted :
+  forall (A1 A2 A3 A4 : Type) op1 e1 op2 e2 op3 e3 op4 e4 (oe : bool)
+         (stale : list (othr A1 A2 A3 A4)) i x tr,
+    (i < length stale)%nat ->
+    ostep A1 A2 A3 A4 op1 e1 op2 e2 op3 e3 op4 e4 (bw_cfg oe false) stale ((i, x) :: tr) = None.
+Proof. exact bw_notrans_panics. Qed.
+
+(* the regression class "the loop merging gamma AND the likelihood is guarded by gamma != nil":
+   distinguished by the model exactly in the configuration without gamma *)
+Example guarded_merge_loses_likelihood :
+  let st := [mkO false 0 0 0 0; mkO false 0 0 0 0]%Z in
+  let tr := [(0%nat, mkC 1 1 1 10); (1%nat, mkC 1 1 1 20)]%Z in
+  option_map r_4 (ostep Z Z Z Z Z.add 0%Z Z.add 0%Z Z.add 0%Z Z.add 0%Z (bw_cfg false true) st tr) = Some 30%Z /\
+  option_map r_4 (ostep_guarded Z Z Z Z Z.add 0%Z Z.add 0%Z Z.add 0%Z Z.add 0%Z (bw_cfg false true) st tr) = Some 10%Z /\
+  option_map r_4 (ostep_guarded Z Z Z Z Z.add 0%Z Z.add 0%Z Z.add 0%Z Z.add 0%Z (bw_cfg true true) st tr) = Some 30%Z.
+Proof. exact guarded_loses. Qed.
 
 (* the hypotheses are satisfiable by a non-trivial instance: 3 jobs on 4 threads, thread 0 and 3 never used *)
 Example schedule_example :
